@@ -34,9 +34,13 @@ func NewDocument() *Document {
 	}
 }
 
-// AddPage appends a page to the document and assigns its page number (1-indexed).
+// AddPage appends a page to the document. A page whose Number is not set yet is
+// assigned its 1-indexed position in the document; a Number set by the caller
+// (e.g. the source page number when only some pages were extracted) is kept.
 func (d *Document) AddPage(page *Page) {
-	page.Number = len(d.Pages) + 1
+	if page.Number == 0 {
+		page.Number = len(d.Pages) + 1
+	}
 	d.Pages = append(d.Pages, page)
 }
 
